@@ -207,7 +207,8 @@ const maxExpansionRatio = 4096
 // payload; and the random access reader parses a header wherever it sees the marker, also inside a payload.
 func checkRecordSizes(header *Header, payloadSizeUncompressed uint64, payloadSizeCompressed uint64) error {
 	if header.compressor == nil {
-		if payloadSizeCompressed != 0 {
+		// (the formats before v4 are not held to this, their writers are gone)
+		if header.fileVersion >= Version4 && payloadSizeCompressed != 0 {
 			return fmt.Errorf("%w: compressed size %d in a file without compression", HeaderChecksumMismatchErr, payloadSizeCompressed)
 		}
 		return nil
